@@ -30,6 +30,10 @@ func main() {
 		coalReplayMain(os.Args[2:])
 	case "coal-stress":
 		coalStressMain(os.Args[2:])
+	case "pool-replay":
+		poolReplayMain(os.Args[2:])
+	case "pool-stress":
+		poolStressMain(os.Args[2:])
 	default:
 		fatal("unknown subcommand", os.Args[1])
 	}
